@@ -2,7 +2,8 @@
    This file holds only the property theorems; proofs are in proofs/StyleFacts.v.
    Recorded defects: D11 (',' in regular values), D25 (space after a hex escape is swallowed);
    their witnesses are in props/C15_findings.v. *)
-From V Require Import lib.Base lib.Regex lib.Utf8 gen.GenRegex spec.CssSyntax model.Url model.Style spec.StyleSpec proofs.StyleFacts.
+From V Require Import lib.Base lib.Regex lib.Utf8 gen.GenRegex spec.CssSyntax model.Url model.Style spec.StyleSpec
+  proofs.StyleFacts proofs.CssTokFacts proofs.StyleTokFacts.
 
 (* the output is the concatenation, in the documented order and under the documented property
    names, of one chunk  name:value;  per non-empty field (regenerated emission list = documented list) *)
@@ -93,11 +94,41 @@ Theorem C15_css_escape_bytes : forall s,
 Proof. exact css_escape_string_bytes. Qed.
 Print Assumptions C15_css_escape_bytes.
 
-(* The tokenizer-level statement of the whole property: the specification predicate of
-   spec/StyleSpec.v (parse_declaration_list of the output = exactly the documented declarations of
-   the non-empty fields, no bad-string / bad-url / comment / unclosed block, values as documented)
-   holds of the model's output up to the recorded findings.  NOT proved: covered by the oracle
-   search (the extracted predicate is evaluated on the implementation's real outputs, and the
-   model is tied to the implementation by correspondence on the same cases). *)
+(* the central lemma (DESIGN C15 "tokens_app_semicolon"): harmless text -- over the documented
+   alphabet plus ',' and without a comment opener -- followed by one of the separators , : ; is
+   tokenized into harmless tokens (ident, hash, delim, number, percentage, dimension, whitespace,
+   comma), then the separator's own token, then whatever the rest gives: nothing that starts in
+   harmless text can absorb the separator *)
+Theorem C15_tokens_app_separator : forall sep, is_sep sep = true -> forall v rest fuel,
+  Forall (fun c => hch c = true /\ c <> sep) v -> no_comment_marker v = true ->
+  (length (v ++ sep :: rest) < fuel)%nat ->
+  exists ts fuel', tokenize_fuel fuel (v ++ sep :: rest) = ts ++ sep_token sep :: tokenize_fuel fuel' rest /\
+                   forallb harmless_token ts = true /\ (length rest < fuel')%nat.
+Proof. exact tokens_app_separator. Qed.
+Print Assumptions C15_tokens_app_separator.
+
+(* THE PROPERTY AT THE LEVEL OF THE CSS PARSER, for every StyleProperties value: CSS Syntax Level 3
+   "parse a list of declarations" on the tokens of the Style gives exactly one declaration per
+   emitted (= non-empty) field, bearing the documented property name, in the documented order, and
+   nothing else (no at-rule, no skipped junk); every block or function inside a value is closed;
+   no bad-string, bad-url, unterminated string/url or comment token occurs.  Holds with D11 and D25
+   present: neither can add, drop or merge declarations. *)
+Theorem C15_declarations : forall p,
+  let toks := css_tokens (style_from_properties p) in
+  let ds := parse_declaration_list toks in
+  map decl_name ds = map (fun n => Some n) (emitted_names p) /\
+  forallb is_decl ds = true /\
+  forallb decl_closed ds = true /\
+  existsb is_bad_token toks = false.
+Proof. exact style_declarations. Qed.
+Print Assumptions C15_declarations.
+
+(* The remaining, value-level part of the specification predicate of spec/StyleSpec.v (the value of
+   every declaration, compared token by token with the field's input) is proved above per item
+   (C15_regular_values_partial, C15_enum_values, C15_url_item_tokens, C15_font_item_ident, C15_font_item_tokens) but not for
+   the assembled declaration list; the assembled statement is covered by the oracle search: the
+   extracted predicate is evaluated on the implementation's real outputs (every failure must be one
+   accepted by a recorded-finding classifier), and the model is tied to the implementation by
+   correspondence on the same cases. *)
 Definition C15_declarations_full_statement : Prop := forall p,
   Forall (fun f => snd f <> 0) (style_spec_failures p (style_from_properties p)).
